@@ -463,6 +463,7 @@ def main():
     # Starts: the optimal basis itself; the optimal basis with nonbasic boxed columns / ranged rows moved to their other bound
     # (the dual simplex repairs those by bound flips, without a pivot); a random subset of those flips.
     wcases, wmeta = [], {}
+    dcases, dmeta = [], {}
     def boxed(l, u):
         return l not in (INF, NINF) and u not in (INF, NINF) and F(l) != F(u)
     for cid, (fo, cs, rs) in want2.items():
@@ -485,6 +486,14 @@ def main():
                 wcases.append((wid, "\n".join(["CASE " + wid, lp_block(lp), "PARAM 0 %d" % pp, "PARAM 2 %d" % dp, "PARAM 7 %d" % sc, "SOLVE EXACT %s %s %s" % (algo, c0, r0),
                                                "ACCESS", lp_block(lp), "BOPT KEPTE -"]) + "\n"))
                 wmeta[wid] = (lp, what, algo, c0, r0, cid)
+                if what != "same":
+                    # the same start through the direct entry points on an object that HOLDS an optimal solution: solve, load the
+                    # other basis, solve again; the basis then handed back with OPTIMAL must be an optimal one
+                    did = "%s.d%d%s" % (cid, k, algo)
+                    ent = "PRIMAL" if algo == "P" else "DUAL"
+                    dcases.append((did, "\n".join(["CASE " + did, lp_block(lp), "PARAM 0 %d" % pp, "PARAM 2 %d" % dp, "PARAM 7 %d" % sc, "SOLVE " + ent, "LOADBASIS %s %s" % (c0, r0),
+                                                   "SOLVE " + ent, "KEEPBASIS", "ACCESS", lp_block(lp), "BOPT KEPT -"]) + "\n"))
+                    dmeta[did] = (lp, what, ent, c0, r0)
     _, wouts, wcr = run_cases("h_fac", wcases, per_case_timeout=15)
     wscripts = dict(wcases)
     ck.cov["crashes_seen"] += [dict(case=c, rc=rc) for c, rc, e in wcr]
@@ -511,6 +520,31 @@ def main():
                          "QSexact_solver (%s) warm-started from %s basis %s %s returned OPTIMAL but hands back basis %s %s, which QSexact_basis_optimalstatus does not confirm (%s)" %
                          (algo, what, c0, r0, b1, b2, verdict_c(bo[0]) if bo else None), match=dict(kind="returned-not-optimal-basis", entry="EXACT-WARM"))
     ck.cov["exact_warm_started_returns_checked"] = nwarm
+    _, douts, dcr = run_cases("h_fac", dcases, per_case_timeout=15)
+    dscripts = dict(dcases)
+    ck.cov["crashes_seen"] += [dict(case=c, rc=rc) for c, rc, e in dcr]
+    ndir = 0
+    for did, toks in douts.items():
+        fo = FacOut(toks)
+        lp, what, ent, c0, r0 = dmeta[did]
+        sv = [t for t in fo.ops if t[0] == "SOLVE"]
+        kb = [t for t in fo.ops if t[0] == "KEEPBASIS"]
+        bo = [t for t in fo.ops if t[0] == "BOPT"]
+        ld = [t for t in fo.ops if t[0] == "LOADBASIS"]
+        if len(sv) < 2 or not kb or not ld or ld[0][1] != "0":
+            continue
+        rv1, st1, rv2, st2 = int(sv[0][2]), int(sv[0][3]), int(sv[1][2]), int(sv[1][3])
+        bump("solve-load-solve/%s/%s" % (ent, STATUS.get(st2, st2) if rv2 == 0 else "rval!=0"))
+        if rv1 != 0 or st1 != 1 or rv2 != 0 or st2 != 1:
+            continue
+        ndir += 1
+        ck.count(("solve-load-solve", repr(lp["cols"]), repr(lp["rows"]), lp["max"], ent, c0, r0))
+        if not bo or verdict_c(bo[0]) != ("res", 1, "0"):
+            ck.violation("loadsolve_%s.txt" % did, dscripts[did] + "# basis handed back: %s\n" % kb[0][1:3],
+                         "mpq_QSopt_%s: solve, load basis %s %s (optimal basis with nonbasic entries at the other bound), solve again: OPTIMAL, but the basis handed back %s "
+                         "is not confirmed by QSexact_basis_optimalstatus (%s)" % (ent.lower(), c0, r0, kb[0][1:3], verdict_c(bo[0]) if bo else None),
+                         match=dict(kind="returned-not-optimal-basis", entry=ent + "-AFTER-LOAD"))
+    ck.cov["solve_load_solve_returns_checked"] = ndir
 
     # ------------------------------------------------------------------ 3. verdict calls on an object with an edit history
     hl = small_lp_family(rng, 300 if T else 40) + [planted_lp(rng, rng.randint(2, 5), rng.randint(2, 6), "small", name="H%d" % i) for i in range(150 if T else 20)]
